@@ -7,11 +7,17 @@
    (C14_escape_loop_progress), so it runs at most len(value) times, ends with no escape left or
    gives the value up (C14_escape_loop_ends), and the fuel of the model is never what stops it
    (C14_fuel_irrelevant: the model IS the unbounded loop).
-   Wall-clock time is not a theorem; the cost of recursiveCheck is validated by call counters on
-   size-parameterised adversarial families (see the C14 check). *)
+   The one super-linear piece of /repo's own code, recursiveCheck of css/handlers.go (the search for a
+   cut of a shorthand value into groups accepted by sub-handlers, memoised since fix F8), is modelled
+   with a counter of sub-handler calls: C14_recursive_check_quadratic bounds the calls by
+   |sub-handlers| * n * n for n components, for every value and all sub-handlers, and
+   C14_recursive_check_correct shows that the memo table never hides a solution (the result is true
+   exactly when a cut exists).  The model is tied to the code on the result and on the call count.
+   Wall-clock time is not a theorem; seconds are validated on size-parameterised adversarial
+   families (see the C14 check). *)
 From Coq Require Import List NArith Bool.
 Import ListNotations.
-From BM Require Import Bytes Tokenizer Policy Style Loop Entry LoopInv EntryProofs StyleTermination.
+From BM Require Import Bytes Strings Tokenizer Policy Style Loop Entry LoopInv EntryProofs StyleTermination RecCheck RecCheckProofs RecCheckCost.
 
 Section C14.
   Variables M U R : Type.
@@ -46,6 +52,21 @@ Proof. exact remove_unicode_fuel_irrelevant. Qed.
 Example C14_escape_loop_example : remove_unicode (B"\5c \5c x\72 ed") = [92; 92; 120; 114; 101; 100].
 Proof. vm_compute. reflexivity. Qed.
 
+(* recursiveCheck: quadratically many sub-handler calls, and the right answer *)
+Theorem C14_recursive_check_quadratic : forall (value : list bytes) (funcs : list (bytes -> bool)),
+  (calls (snd (recursive_check_run value funcs)) <= length funcs * length value * length value)%nat.
+Proof. exact recursive_check_calls. Qed.
+
+Theorem C14_recursive_check_correct : forall (value : list bytes) (funcs : list (bytes -> bool)),
+  recursive_check value funcs = true <-> good value funcs 0.
+Proof. exact recursive_check_correct. Qed.
+
+Example C14_recursive_check_example :
+  rc_sets [B"a"; B"a"; B"a"; B"a"; B"a"; B"a"; B"a"; B"!"] [[B"a"; B"a a"; B"a a a"]; [B"a a"]] = (false, 72%nat).
+Proof. vm_compute. reflexivity. Qed.
+
+Print Assumptions C14_recursive_check_quadratic.
+Print Assumptions C14_recursive_check_correct.
 Print Assumptions C14_no_panic.
 Print Assumptions C14_escape_loop_progress.
 Print Assumptions C14_escape_loop_ends.
